@@ -191,3 +191,95 @@ func (w *World) IsInitOnly(st types.Type, f *types.Var) bool {
 	}
 	return !w.mutableField[typeKey(st)+"."+f.Name()]
 }
+
+// ---------- captured variables that no closure writes ----------
+//
+// A local variable captured by closures lives in a heap cell. When neither a closure (transitively) stores to it nor
+// its address is used for anything but loads, stores by the declaring function, captures and debug references, the
+// cell can only be written by the declaring function's own Store instructions. Its content therefore survives calls
+// with unknown effects, both in the declaring function and inside the closures.
+
+// cellWrittenByClosure: some closure below fn stores to (or leaks the address of) the free variable bound to index k.
+func closureWrites(fn *ssa.Function, fvIdx int, depth int) bool {
+	if depth > 8 || fvIdx >= len(fn.FreeVars) {
+		return true
+	}
+	fv := fn.FreeVars[fvIdx]
+	refs := fv.Referrers()
+	if refs == nil {
+		return false
+	}
+	for _, r := range *refs {
+		switch x := r.(type) {
+		case *ssa.DebugRef:
+		case *ssa.UnOp: // load
+		case *ssa.FieldAddr, *ssa.IndexAddr:
+			// interior access of a captured struct/array: contents are tracked as fields, not as a cell
+		case *ssa.MakeClosure:
+			for k, b := range x.Bindings {
+				if b == ssa.Value(fv) {
+					if closureWrites(x.Fn.(*ssa.Function), k, depth+1) {
+						return true
+					}
+				}
+			}
+		default:
+			return true // store, call argument, ...
+		}
+	}
+	return false
+}
+
+// stableLocal: heap-allocated local whose cell is written only by the declaring function's own stores.
+func stableLocal(al *ssa.Alloc) bool {
+	refs := al.Referrers()
+	if refs == nil {
+		return true
+	}
+	for _, r := range *refs {
+		switch x := r.(type) {
+		case *ssa.DebugRef, *ssa.UnOp, *ssa.FieldAddr, *ssa.IndexAddr:
+		case *ssa.Store:
+			if x.Addr != ssa.Value(al) {
+				return false // the address itself is stored somewhere
+			}
+		case *ssa.MakeClosure:
+			for k, b := range x.Bindings {
+				if b == ssa.Value(al) && closureWrites(x.Fn.(*ssa.Function), k, 0) {
+					return false
+				}
+			}
+		default:
+			return false
+		}
+	}
+	return true
+}
+
+// stableFreeVar: free variable of fn that no closure anywhere writes: follow the binding chain to the declaring Alloc.
+func stableFreeVar(fn *ssa.Function, idx int) bool {
+	parent := fn.Parent()
+	if parent == nil {
+		return false
+	}
+	for _, b := range parent.Blocks {
+		for _, ins := range b.Instrs {
+			mc, ok := ins.(*ssa.MakeClosure)
+			if !ok || mc.Fn != ssa.Value(fn) || idx >= len(mc.Bindings) {
+				continue
+			}
+			switch src := mc.Bindings[idx].(type) {
+			case *ssa.Alloc:
+				return stableLocal(src)
+			case *ssa.FreeVar:
+				for k, pf := range parent.FreeVars {
+					if pf == src {
+						return stableFreeVar(parent, k)
+					}
+				}
+			}
+			return false
+		}
+	}
+	return false
+}
